@@ -233,6 +233,25 @@ class Func(object):
         self._live = live
         return live
 
+    def in_loop(self, n):
+        """is the CFG element holding node n (or an ancestor of it) inside a cycle of the CFG?"""
+        x = n["id"]
+        while x is not None and x not in self.elem_block:
+            x = self.parent.get(x)
+        if x is None:
+            return True      # unknown position: be conservative
+        b0 = self.elem_block[x][0]
+        seen, stack = set(), [s for s in self.blocks[b0]["s"] if s is not None]
+        while stack:
+            b = stack.pop()
+            if b == b0:
+                return True
+            if b in seen:
+                continue
+            seen.add(b)
+            stack.extend(s for s in self.blocks[b]["s"] if s is not None)
+        return False
+
     def rpo(self):
         """reverse post-order of reachable blocks from entry"""
         if getattr(self, "_order", None):
